@@ -31,10 +31,10 @@ def run(ctx):
     ctx.rule("C15.guard", "A3 lockset rule on the value of all five register-like classes (reads under S or X, "
              "writes under X of the object's own mutex)", floor=60)
     for cls in OPS:
-        check_guarded_fields(ctx, "C15.guard", cls)
-    onecs(ctx)
-    flow_rules(ctx)
-    common.witnesses(ctx, "C15.witness", ["C15"])
+        ctx.step(check_guarded_fields, ctx, "C15.guard", cls)
+    ctx.step(onecs, ctx)
+    ctx.step(flow_rules, ctx)
+    ctx.step(common.witnesses, ctx, "C15.witness", ["C15"])
 
 
 def _is_conv(f):
